@@ -13,6 +13,7 @@
 import Ark.Proofs.AL
 import Ark.Proofs.TableIDs
 import Ark.Proofs.ArchIndex
+import Ark.Proofs.MaskLemmas
 import Ark.Model.World
 
 namespace Ark
@@ -56,6 +57,11 @@ theorem foldl_partial (step : Option (List β) → α → Option (List β)) (g :
     · rw [h1] at hr
       rw [ih (fun b hb => h b (List.mem_cons_of_mem _ hb)) _ hr, List.flatMap_cons,
         List.append_assoc]
+
+theorem flatMap_singleton (g : α → β) (l : List α) : l.flatMap (fun a => [g a]) = l.map g := by
+  induction l with
+  | nil => rfl
+  | cons a l ih => rw [List.flatMap_cons, ih]; rfl
 
 /-- Duplicate-freeness of a concatenation whose pieces are separated by a key that records the
     position of the piece. -/
@@ -422,7 +428,8 @@ theorem mem_swapRemove {α : Type} (T : List α) (index : Nat) (a : α) (x : α)
   rw [swapRemove_getElem?] at hi
   by_cases h1 : i < T.length - 1
   · by_cases h2 : i = index
-    · simp only [h1, h2, if_true] at hi
+    · subst h2
+      rw [if_pos h1, if_pos rfl] at hi
       injection hi with hi; subst hi
       rw [List.getD_eq_getElem?_getD, List.getElem?_eq_getElem (by omega)]
       simp
@@ -532,16 +539,19 @@ theorem getCacheTables_congr {w w' : World} (ha : w'.archetypes = w.archetypes)
 def newEntry (w : World) (f : Filter) (rels : List RelID) (ts : List Nat) : CacheEntry :=
   { id := (w.cache.pool.get).2, filter := f, rels, tables := TableIDs.ofList ts }
 
+/-- The world after a successful `register` whose walk returned `ts`. -/
+def registered (w : World) (f : Filter) (rels : List RelID) (ts : List Nat) : World :=
+  { w with cache := { pool := (w.cache.pool.get).1,
+                      filters := w.cache.filters ++ [newEntry w f rels ts],
+                      indices := AL.insert w.cache.indices (w.cache.pool.get).2
+                        w.cache.filters.length } }
+
 /-- Unfolding of `register` once the walk has succeeded. -/
 theorem cacheRegister_eq (w : World) (f : Filter) (rels : List RelID) (ts : List Nat)
     (hts : w.getCacheTables f rels = some ts) :
-    cacheRegister f rels w = .ok (w.cache.pool.get).2
-      { w with cache := { pool := (w.cache.pool.get).1
-                          filters := w.cache.filters ++ [newEntry w f rels ts]
-                          indices := AL.insert w.cache.indices (w.cache.pool.get).2
-                            w.cache.filters.length } } := by
-  have h' : ({ w with cache := { w.cache with pool := (w.cache.pool.get).1 } } : World).getCacheTables
-      f rels = some ts := by
+    cacheRegister f rels w = .ok (w.cache.pool.get).2 (registered w f rels ts) := by
+  have h' : ({ w with cache := { w.cache with pool := (w.cache.pool.get).1 } } :
+      World).getCacheTables f rels = some ts := by
     rw [getCacheTables_congr rfl rfl]; exact hts
   unfold cacheRegister
   simp only [h']
@@ -570,11 +580,9 @@ theorem cacheRegister_inv {w : World} (h : CacheInv w) (H : TablesInv w) {f : Fi
       exact CacheIdx.append h.index (newEntry w f rels ts) hfresh k i
     · intro e he
       have hsel : ∀ (f' : Filter) (rels' : List RelID) (t : Nat),
-          Selected { w with cache := { pool := (w.cache.pool.get).1
-                          filters := w.cache.filters ++ [newEntry w f rels ts]
-                          indices := AL.insert w.cache.indices (w.cache.pool.get).2
-                            w.cache.filters.length } } f' rels' t ↔ Selected w f' rels' t :=
+          Selected (registered w f rels ts) f' rels' t ↔ Selected w f' rels' t :=
         fun f' rels' t => Selected_congr rfl rfl f' rels' t
+      replace he : e ∈ w.cache.filters ++ [newEntry w f rels ts] := he
       simp only [List.mem_append, List.mem_singleton] at he
       rcases he with he | he
       · refine ⟨(h.entries e he).1, fun t => ?_⟩
@@ -582,12 +590,12 @@ theorem cacheRegister_inv {w : World} (h : CacheInv w) (H : TablesInv w) {f : Fi
       · subst he
         refine ⟨TableIDs.wf_ofList ts hnd, fun t => ?_⟩
         rw [hsel]; exact hmem t
-  · simp only [cacheEntry?, AL.find?_insert_self]
+  · simp only [cacheEntry?, registered, AL.find?_insert_self]
     simp
   · intro t
-    rw [Selected_congr rfl rfl]; exact hmem t
+    rw [Selected_congr (w := w) (w' := registered w f rels ts) rfl rfl]; exact hmem t
   · intro id' hne
-    simp only [cacheEntry?, AL.find?_insert_ne _ _ _ _ hne]
+    simp only [cacheEntry?, registered, AL.find?_insert_ne _ _ _ _ hne]
     cases hf : AL.find? w.cache.indices id' with
     | none => rfl
     | some idx =>
@@ -600,20 +608,39 @@ theorem cacheRegister_inv {w : World} (h : CacheInv w) (H : TablesInv w) {f : Fi
 
 /-- **(c)** `unregister` of a registered ID succeeds and preserves the invariant; the ID is no
     longer registered, every other ID resolves to the same entry, the storage is untouched. -/
+theorem cacheUnregister_last (w : World) (id : Nat)
+    (hf : AL.find? w.cache.indices id = some (w.cache.filters.length - 1)) :
+    cacheUnregister id w = .ok ()
+      { w with cache := { w.cache with
+          filters := w.cache.filters.take (w.cache.filters.length - 1),
+          indices := AL.erase w.cache.indices id } } := by
+  unfold cacheUnregister
+  simp [hf]
+
+theorem cacheUnregister_inner (w : World) (id idx : Nat)
+    (hf : AL.find? w.cache.indices id = some idx) (hl : idx ≠ w.cache.filters.length - 1) :
+    cacheUnregister id w = .ok ()
+      { w with cache := { w.cache with
+          filters := ((w.cache.filters.set idx
+              (w.cache.filters.getD (w.cache.filters.length - 1) default)).set
+              (w.cache.filters.length - 1) (w.cache.filters.getD idx default)).take
+              (w.cache.filters.length - 1),
+          indices := AL.insert (AL.erase w.cache.indices id)
+            (w.cache.filters.getD (w.cache.filters.length - 1) default).id idx } } := by
+  unfold cacheUnregister
+  simp [hf, hl]
+
 theorem cacheUnregister_inv {w : World} (h : CacheInv w) {id idx : Nat}
     (hf : AL.find? w.cache.indices id = some idx) :
     ∃ (w' : World), cacheUnregister id w = .ok () w' ∧ CacheInv w' ∧
       w'.archetypes = w.archetypes ∧ w'.tables = w.tables ∧
       w'.cacheEntry? id = none ∧
       (∀ (id' : Nat), id' ≠ id → w'.cacheEntry? id' = w.cacheEntry? id') := by
-  unfold cacheUnregister
-  simp only [hf]
   obtain ⟨e0, he0, he0id⟩ := (h.index id idx).1 hf
   have hlt : idx < w.cache.filters.length := (List.getElem?_eq_some_iff.1 he0).1
   by_cases hl : idx = w.cache.filters.length - 1
   · -- the last entry
-    have hb : (idx != w.cache.filters.length - 1) = false := by simp [hl]
-    simp only [hb]
+    rw [cacheUnregister_last w id (hl ▸ hf)]
     have hidx' := fun k i => CacheIdx.takeLast h.index (hl ▸ hf) k i
     refine ⟨_, rfl, ⟨h.uniq.erase id, hidx', ?_⟩, rfl, rfl, ?_, ?_⟩
     · intro e he
@@ -634,8 +661,7 @@ theorem cacheUnregister_inv {w : World} (h : CacheInv w) {id idx : Nat}
         have hjlt : j < w.cache.filters.length := (List.getElem?_eq_some_iff.1 he').1
         rw [List.getElem?_take, if_pos (by omega)]
   · -- an inner entry
-    have hb : (idx != w.cache.filters.length - 1) = true := by simp [hl]
-    simp only [hb, if_true]
+    rw [cacheUnregister_inner w id idx hf hl]
     have hidx' := fun k i => CacheIdx.swapRemove h.index hf hl k i
     have hlast : w.cache.filters[w.cache.filters.length - 1]? =
         some (w.cache.filters.getD (w.cache.filters.length - 1) default) := by
@@ -681,5 +707,440 @@ theorem cacheUnregister_unknown (w : World) (id : Nat)
     cacheUnregister id w = .panic .filterNotRegistered w := by
   unfold cacheUnregister; simp only [hf]
 
+end World
+end Ark
+
+/-! ## (d), (e): tables becoming active / inactive -/
+
+namespace Ark
+namespace World
+
+/-! ### per-entry form -/
+
+/-- What `cache.addTable` does to one entry, for a table `T` of an archetype with mask `m`. -/
+def addTableEntry (m : Mask) (T : Table) (e : CacheEntry) : CacheEntry :=
+  if e.filter.matchesMask m = true ∧ T.matchesRels e.rels = some true then
+    { e with tables := e.tables.append T.id }
+  else e
+
+@[simp] theorem addTableEntry_id (m : Mask) (T : Table) (e : CacheEntry) :
+    (addTableEntry m T e).id = e.id := by unfold addTableEntry; split <;> rfl
+
+@[simp] theorem addTableEntry_filter (m : Mask) (T : Table) (e : CacheEntry) :
+    (addTableEntry m T e).filter = e.filter := by unfold addTableEntry; split <;> rfl
+
+@[simp] theorem addTableEntry_rels (m : Mask) (T : Table) (e : CacheEntry) :
+    (addTableEntry m T e).rels = e.rels := by unfold addTableEntry; split <;> rfl
+
+/-- **(d), per-entry form.** If the entry lists exactly the tables satisfying `P` and `T.id` is
+    not among them, then after the `addTable` step it lists exactly those plus `T.id` when the
+    filter matches the archetype mask and the table matches the entry's relations. -/
+theorem addTableEntry_spec (m : Mask) (T : Table) (e : CacheEntry) (P : Nat → Prop)
+    (hwf : e.tables.WF) (hP : ∀ (t' : Nat), t' ∈ e.tables.tables ↔ P t')
+    (hnew : T.id ∉ e.tables.tables) :
+    (addTableEntry m T e).tables.WF ∧
+    ∀ (t' : Nat), t' ∈ (addTableEntry m T e).tables.tables ↔
+      P t' ∨ (t' = T.id ∧ e.filter.matchesMask m = true ∧ T.matchesRels e.rels = some true) := by
+  unfold addTableEntry
+  split
+  · rename_i hc
+    refine ⟨hwf.append hnew, fun t' => ?_⟩
+    simp only [TableIDs.append_tables, List.mem_append, List.mem_singleton, hP]
+    constructor
+    · rintro (h | h)
+      · exact Or.inl h
+      · exact Or.inr ⟨h, hc⟩
+    · rintro (h | ⟨h, _⟩)
+      · exact Or.inl h
+      · exact Or.inr h
+  · rename_i hc
+    refine ⟨hwf, fun t' => ?_⟩
+    rw [hP]
+    constructor
+    · exact Or.inl
+    · rintro (h | ⟨_, h⟩)
+      · exact h
+      · exact absurd h hc
+
+/-- **(e), per-entry form.** After the `removeTable` step the entry lists exactly the tables it
+    listed before, minus `t`. -/
+theorem removeTableEntry_spec (t : Nat) (e : CacheEntry) (P : Nat → Prop)
+    (hwf : e.tables.WF) (hP : ∀ (t' : Nat), t' ∈ e.tables.tables ↔ P t') :
+    (e.tables.remove t).1.WF ∧
+    ∀ (t' : Nat), t' ∈ (e.tables.remove t).1.tables ↔ P t' ∧ t' ≠ t := by
+  refine ⟨hwf.remove t, fun t' => ?_⟩
+  rw [hwf.mem_remove, hP]
+
+/-! ### the loops of `addTable` / `removeTable` -/
+
+/-- One iteration of `cache.addTable`: it either panics (nil dereference in `Matches`) or
+    appends the updated entry. -/
+theorem cacheAddTable_step (m : Mask) (T : Table) (e : CacheEntry) (acc : List CacheEntry) :
+    (if !e.filter.matchesMask m then some (acc ++ [e])
+      else if !T.hasRelations then some (acc ++ [{ e with tables := e.tables.append T.id }])
+      else match T.matchesRels e.rels with
+        | none => none
+        | some true => some (acc ++ [{ e with tables := e.tables.append T.id }])
+        | some false => some (acc ++ [e]))
+    = if e.filter.matchesMask m = true ∧ T.hasRelations = true ∧ T.matchesRels e.rels = none
+      then none else some (acc ++ [addTableEntry m T e]) := by
+  unfold addTableEntry
+  by_cases hm : e.filter.matchesMask m = true
+  case neg => simp [hm]
+  by_cases hr : T.hasRelations = true
+  case neg =>
+    have hr' : T.hasRelations = false := by simpa using hr
+    simp [hm, hr', Table.matchesRels_noRel T hr']
+  cases hmr : T.matchesRels e.rels with
+  | none => simp [hm, hr]
+  | some b => cases b <;> simp [hm, hr]
+
+/-- If `addTable` does not panic, the new entry slice is the old one mapped through
+    `addTableEntry`, everything else is unchanged. -/
+theorem cacheAddTable_eq {w w'' : World} {T : Table} (h : w.cacheAddTable T = some w'') :
+    w'' = { w with cache := { w.cache with
+      filters := w.cache.filters.map (addTableEntry (w.arch T.arch).mask T) } } := by
+  unfold cacheAddTable at h
+  simp only at h
+  split at h
+  · cases h
+  · rename_i fs hfs
+    injection h with h
+    have := OptFold.foldl_partial _ (fun e => [addTableEntry (w.arch T.arch).mask T e])
+      (fun _ => rfl) w.cache.filters ?_ [] fs hfs
+    · rw [← h, this]
+      simp [OptFold.flatMap_singleton]
+    · intro e _ acc
+      have hs := cacheAddTable_step (w.arch T.arch).mask T e acc
+      by_cases hc : e.filter.matchesMask (w.arch T.arch).mask = true ∧ T.hasRelations = true ∧
+          T.matchesRels e.rels = none
+      · exact Or.inl (hs.trans (if_pos hc))
+      · exact Or.inr (hs.trans (if_neg hc))
+
+/-- `addTable` does not panic when `Matches` is defined for every entry whose filter matches
+    (for relation tables). -/
+theorem cacheAddTable_isSome (w : World) (T : Table)
+    (hok : ∀ (e : CacheEntry), e ∈ w.cache.filters →
+      e.filter.matchesMask (w.arch T.arch).mask = true → T.hasRelations = true →
+      T.matchesRels e.rels ≠ none) :
+    (w.cacheAddTable T).isSome = true := by
+  unfold cacheAddTable
+  simp only
+  generalize hfold : List.foldl _ _ _ = r
+  have h2 := hfold.symm.trans (OptFold.foldl_total _
+    (fun e => [addTableEntry (w.arch T.arch).mask T e]) w.cache.filters ?_ [])
+  · rw [h2]; rfl
+  · intro e he acc
+    have hs := cacheAddTable_step (w.arch T.arch).mask T e acc
+    refine hs.trans (if_neg ?_)
+    rintro ⟨h1, h2, h3⟩
+    exact hok e he h1 h2 h3
+
+/-! ### world-level form -/
+
+/-- `w'` differs from `w` (as far as the cache can see) only in the active status of table `t`
+    in archetype `a`: other archetypes are unchanged, archetype `a` keeps its mask and its other
+    active tables, other tables are unchanged, and the cache is unchanged. -/
+structure ActiveChange (w w' : World) (a t : Nat) : Prop where
+  other : ∀ (a' : Nat), a' ≠ a → w'.archetypes[a']? = w.archetypes[a']?
+  here : ∃ (A A' : Archetype), w.archetypes[a]? = some A ∧ w'.archetypes[a]? = some A' ∧
+    A'.mask = A.mask ∧ ∀ (t' : Nat), t' ≠ t → (t' ∈ A'.tables.tables ↔ t' ∈ A.tables.tables)
+  tbl : ∀ (t' : Nat), t' ≠ t → w'.tbl t' = w.tbl t'
+  cache : w'.cache = w.cache
+
+/-- Selection of the other tables is unaffected. -/
+theorem ActiveChange.selected_ne {w w' : World} {a t : Nat} (h : ActiveChange w w' a t)
+    (f : Filter) (rels : List RelID) {t' : Nat} (ht : t' ≠ t) :
+    Selected w' f rels t' ↔ Selected w f rels t' := by
+  obtain ⟨A, A', hA, hA', hmask, htabs⟩ := h.here
+  unfold Selected
+  rw [h.tbl t' ht]
+  constructor
+  · rintro ⟨a', B, hB, h1, h2, h3⟩
+    by_cases ha : a' = a
+    · subst ha
+      rw [hA'] at hB; injection hB with hB; subst hB
+      exact ⟨a', A, hA, (htabs t' ht).1 h1, hmask ▸ h2, h3⟩
+    · exact ⟨a', B, (h.other a' ha) ▸ hB, h1, h2, h3⟩
+  · rintro ⟨a', B, hB, h1, h2, h3⟩
+    by_cases ha : a' = a
+    · subst ha
+      rw [hA] at hB; injection hB with hB; subst hB
+      exact ⟨a', A', hA', (htabs t' ht).2 h1, hmask.symm ▸ h2, h3⟩
+    · exact ⟨a', B, (h.other a' ha).symm ▸ hB, h1, h2, h3⟩
+
+/-- Table `t` becomes active in archetype `a`: it was active nowhere in `w`, it is active in
+    `a` in `w'`, and it points back to `a`. -/
+structure TableAdded (w w' : World) (a t : Nat) : Prop extends ActiveChange w w' a t where
+  inactive : ∀ (a' : Nat) (B : Archetype), w.archetypes[a']? = some B → t ∉ B.tables.tables
+  active : ∀ (A' : Archetype), w'.archetypes[a]? = some A' → t ∈ A'.tables.tables
+  back : (w'.tbl t).arch = a
+
+/-- Table `t` stops being active: it is active nowhere in `w'`. -/
+structure TableRemoved (w w' : World) (a t : Nat) : Prop extends ActiveChange w w' a t where
+  inactive : ∀ (a' : Nat) (B : Archetype), w'.archetypes[a']? = some B → t ∉ B.tables.tables
+
+theorem TableAdded.not_selected {w w' : World} {a t : Nat} (h : TableAdded w w' a t)
+    (f : Filter) (rels : List RelID) : ¬ Selected w f rels t := by
+  rintro ⟨a', B, hB, h1, _⟩
+  exact h.inactive a' B hB h1
+
+theorem TableAdded.selected_new {w w' : World} {a t : Nat} (h : TableAdded w w' a t)
+    (f : Filter) (rels : List RelID) :
+    Selected w' f rels t ↔
+      f.matchesMask (w'.arch (w'.tbl t).arch).mask = true ∧
+        (w'.tbl t).matchesRels rels = some true := by
+  obtain ⟨A, A', hA, hA', hmask, htabs⟩ := h.here
+  have harch : w'.arch (w'.tbl t).arch = A' := by
+    rw [h.back]; unfold arch
+    rw [List.getD_eq_getElem?_getD, hA']; rfl
+  rw [harch]
+  constructor
+  · rintro ⟨a', B, hB, h1, h2, h3⟩
+    by_cases ha : a' = a
+    · subst ha
+      rw [hA'] at hB; injection hB with hB; subst hB
+      exact ⟨h2, h3⟩
+    · rw [h.other a' ha] at hB
+      exact absurd h1 (h.inactive a' B hB)
+  · rintro ⟨h2, h3⟩
+    exact ⟨a, A', hA', h.active A' hA', h2, h3⟩
+
+theorem TableRemoved.not_selected {w w' : World} {a t : Nat} (h : TableRemoved w w' a t)
+    (f : Filter) (rels : List RelID) : ¬ Selected w' f rels t := by
+  rintro ⟨a', B, hB, h1, _⟩
+  exact h.inactive a' B hB h1
+
+/-- **(d)** When table `t` becomes active (worlds `w`, `w'` as in `TableAdded`), and
+    `cache.addTable` for it does not panic, the result satisfies the invariant again. -/
+theorem cacheAddTable_inv {w w' w'' : World} {a t : Nat} (h : CacheInv w)
+    (hd : TableAdded w w' a t) (hid : (w'.tbl t).id = t)
+    (hadd : w'.cacheAddTable (w'.tbl t) = some w'') :
+    CacheInv w'' ∧ w''.archetypes = w'.archetypes ∧ w''.tables = w'.tables ∧
+      w''.cache.indices = w'.cache.indices := by
+  have heq := cacheAddTable_eq hadd
+  have hA : w''.archetypes = w'.archetypes := by rw [heq]
+  have hT : w''.tables = w'.tables := by rw [heq]
+  have hI : w''.cache.indices = w.cache.indices := by rw [heq, ← hd.cache]
+  have hF : w''.cache.filters =
+      w.cache.filters.map (addTableEntry (w'.arch (w'.tbl t).arch).mask (w'.tbl t)) := by
+    rw [heq, ← hd.cache]
+  refine ⟨⟨?_, ?_, ?_⟩, hA, hT, by rw [hI, hd.cache]⟩
+  · rw [hI]; exact h.uniq
+  · intro id i
+    rw [hI, hF, h.index, List.getElem?_map]
+    constructor
+    · rintro ⟨e, he, hid'⟩
+      exact ⟨_, by rw [he]; rfl, by simp [hid']⟩
+    · rintro ⟨e', he', hid'⟩
+      cases hq : w.cache.filters[i]? with
+      | none => rw [hq] at he'; cases he'
+      | some e =>
+        rw [hq] at he'
+        simp only [Option.map_some] at he'
+        injection he' with he'; subst he'
+        exact ⟨e, rfl, by simpa using hid'⟩
+  · intro e' he'
+    rw [hF] at he'
+    obtain ⟨e, he, rfl⟩ := List.mem_map.1 he'
+    obtain ⟨hwf, hsel⟩ := h.entries e he
+    have hnew : (w'.tbl t).id ∉ e.tables.tables := by
+      rw [hid, hsel]; exact hd.not_selected _ _
+    obtain ⟨hwf', hmem'⟩ := addTableEntry_spec (w'.arch (w'.tbl t).arch).mask (w'.tbl t) e _
+      hwf hsel hnew
+    refine ⟨hwf', fun t' => ?_⟩
+    rw [hmem', addTableEntry_filter, addTableEntry_rels, Selected_congr hA hT, hid]
+    by_cases ht : t' = t
+    · subst ht
+      rw [hd.selected_new]
+      constructor
+      · rintro (h1 | ⟨_, h1⟩)
+        · exact absurd h1 (hd.not_selected _ _)
+        · exact h1
+      · intro h1; exact Or.inr ⟨rfl, h1⟩
+    · rw [hd.selected_ne _ _ ht]
+      constructor
+      · rintro (h1 | ⟨h1, _⟩)
+        · exact h1
+        · exact absurd h1 ht
+      · exact Or.inl
+
+/-- **(e)** When table `t` stops being active (worlds `w`, `w'` as in `TableRemoved`),
+    `cache.removeTable` re-establishes the invariant. -/
+theorem cacheRemoveTable_inv {w w' : World} {a t : Nat} (h : CacheInv w)
+    (hd : TableRemoved w w' a t) :
+    CacheInv (w'.cacheRemoveTable t) ∧ (w'.cacheRemoveTable t).archetypes = w'.archetypes ∧
+      (w'.cacheRemoveTable t).tables = w'.tables ∧
+      (w'.cacheRemoveTable t).cache.indices = w'.cache.indices := by
+  refine ⟨⟨?_, ?_, ?_⟩, rfl, rfl, rfl⟩
+  · show AL.Uniq w'.cache.indices
+    rw [hd.cache]; exact h.uniq
+  · intro id i
+    show AL.find? w'.cache.indices id = some i ↔
+      ∃ (e : CacheEntry), (w'.cache.filters.map _)[i]? = some e ∧ e.id = id
+    rw [hd.cache, h.index, List.getElem?_map]
+    constructor
+    · rintro ⟨e, he, hid'⟩
+      exact ⟨{ e with tables := (e.tables.remove t).1 }, by rw [he]; rfl, hid'⟩
+    · rintro ⟨e', he', hid'⟩
+      cases hq : w.cache.filters[i]? with
+      | none => rw [hq] at he'; cases he'
+      | some e =>
+        rw [hq] at he'
+        simp only [Option.map_some] at he'
+        injection he' with he'; subst he'
+        exact ⟨e, rfl, hid'⟩
+  · intro e' he'
+    replace he' : e' ∈ w'.cache.filters.map
+      (fun e => { e with tables := (e.tables.remove t).1 }) := he'
+    rw [hd.cache] at he'
+    obtain ⟨e, he, rfl⟩ := List.mem_map.1 he'
+    obtain ⟨hwf, hsel⟩ := h.entries e he
+    obtain ⟨hwf', hmem'⟩ := removeTableEntry_spec t e _ hwf hsel
+    refine ⟨hwf', fun t' => ?_⟩
+    show t' ∈ (e.tables.remove t).1.tables ↔ Selected (w'.cacheRemoveTable t) e.filter e.rels t'
+    rw [hmem', Selected_congr (w := w') (w' := w'.cacheRemoveTable t) rfl rfl]
+    by_cases ht : t' = t
+    · subst ht
+      constructor
+      · rintro ⟨_, h1⟩; exact absurd rfl h1
+      · intro h1; exact absurd h1 (hd.not_selected _ _)
+    · rw [hd.selected_ne _ _ ht]
+      constructor
+      · exact fun h1 => h1.1
+      · exact fun h1 => ⟨h1, ht⟩
+
+end World
+end Ark
+
+/-! ## Cached = uncached, and how the API establishes `RelsOK` -/
+
+namespace Ark
+namespace World
+
+/-- **Cached filters are indistinguishable from uncached ones.**  For a registered entry (found
+    through the ID map), the cached table list and the uncached walk are both duplicate-free and
+    have the same members. -/
+theorem CacheInv.cached_eq_uncached {w : World} (h : CacheInv w) (H : TablesInv w) {id : Nat}
+    {e : CacheEntry} (he : w.cacheEntry? id = some e) (hok : RelsOK w e.filter e.rels) :
+    e.id = id ∧ e.tables.tables.Nodup ∧
+    ∃ (ts : List Nat), w.getCacheTables e.filter e.rels = some ts ∧ ts.Nodup ∧
+      ∀ (t : Nat), t ∈ e.tables.tables ↔ t ∈ ts := by
+  obtain ⟨hmem, hid⟩ := h.entry_of_lookup he
+  obtain ⟨hwf, hsel⟩ := h.entries e hmem
+  obtain ⟨ts, hts, hnd, hts'⟩ := getCacheTables_spec H hok
+  exact ⟨hid, hwf.nodup, ts, hts, hnd, fun t => by rw [hsel, hts']⟩
+
+/-- The same in the form "member of the cached list ⇔ member of what the walk returns". -/
+theorem CacheInv.mem_cached_iff {w : World} (h : CacheInv w) (H : TablesInv w) {id : Nat}
+    {e : CacheEntry} (he : w.cacheEntry? id = some e) (hok : RelsOK w e.filter e.rels)
+    (t : Nat) :
+    t ∈ e.tables.tables ↔
+      ∃ (ts : List Nat), w.getCacheTables e.filter e.rels = some ts ∧ t ∈ ts := by
+  obtain ⟨_, _, ts, hts, _, hiff⟩ := h.cached_eq_uncached H he hok
+  constructor
+  · intro ht; exact ⟨ts, hts, (hiff t).1 ht⟩
+  · rintro ⟨ts', hts', ht⟩
+    rw [hts] at hts'; injection hts' with hts'; subst hts'
+    exact (hiff t).2 ht
+
+/-- `RelsOK` is what the typed filter API guarantees (`ToRelations` checks that every relation
+    component is a relation type and is in the filter's mask), provided archetypes have a column
+    for each component of their mask, flagged as relation column according to the registry. -/
+theorem relsOK_of_mask {w : World} {f : Filter} {rels : List RelID}
+    (hcols : ∀ (a : Nat) (A : Archetype), w.archetypes[a]? = some A →
+      ∀ (c : Comp), A.mask.get c = true →
+        ∃ (i : Nat), A.colIdx c = some i ∧ A.isRel.getD i false = w.isRelComp c)
+    (hr : ∀ (r : RelID), r ∈ rels → f.mask.get r.comp = true ∧ w.isRelComp r.comp = true) :
+    RelsOK w f rels := by
+  intro a A hA hm _
+  have hsub := ((Filter.matchesMask_iff f A.mask).1 hm).1
+  have key : ∀ (r : RelID), r ∈ rels →
+      ∃ (i : Nat), A.colIdx r.comp = some i ∧ A.isRel.getD i false = true := by
+    intro r hr'
+    obtain ⟨h1, h2⟩ := hr r hr'
+    obtain ⟨i, hi, hi2⟩ := hcols a A hA r.comp (hsub _ h1)
+    exact ⟨i, hi, hi2.trans h2⟩
+  refine ⟨fun r hr' => ?_, fun r hr' => key r (List.mem_of_mem_head? hr')⟩
+  obtain ⟨i, hi, _⟩ := key r hr'
+  rw [hi]; rfl
+
+end World
+end Ark
+
+/-! ## A small concrete world (used by the non-vacuity examples of `Ark.Props.C05Cache`) -/
+
+namespace Ark
+namespace World
+namespace CacheDemo
+
+/-- no observers are registered in the demo: callbacks do nothing -/
+def noRun : ProbeRunner := fun _ _ _ => pure ()
+
+/-- set equality of two ID lists -/
+def setEq (a b : List Nat) : Bool := a.all (b.contains ·) && b.all (a.contains ·)
+
+/-- the cached table list of entry `id` and the uncached walk select the same set -/
+def agree (w : World) (id : Nat) : Bool :=
+  match w.cacheEntry? id with
+  | none => false
+  | some e =>
+    match w.getCacheTables e.filter e.rels with
+    | none => false
+    | some ts => setEq e.tables.tables ts
+
+def cachedTables (w : World) (id : Nat) : List Nat :=
+  ((w.cacheEntry? id).map (·.tables.tables)).getD []
+
+/-- filter "has components 0 and 1" (0 = plain component, 1 = relation component) -/
+def fAR : Filter := { mask := Mask.ofList [0, 1] }
+
+/-- Step 1: two components, two target entities `p1`, `p2`, one child of `p1`; two registered
+    filters: `fAR` without relations, and `fAR` with the relation `(1, p2)`. -/
+def setup : W (Ent × Ent × Nat × Nat) := do
+  let _ ← registerComponent {}
+  let _ ← registerComponent { isRel := true }
+  let p1 ← opNewEntity0 noRun
+  let p2 ← opNewEntity0 noRun
+  let _ ← opNewEntity noRun .unsafe_ [0, 1] [] [⟨1, p1⟩]
+  let id0 ← cacheRegister fAR []
+  let id1 ← cacheRegister fAR [⟨1, p2⟩]
+  pure (p1, p2, id0, id1)
+
+/-- Step 2: a child of `p2` — creates another matching table. -/
+def addChild (p2 : Ent) : W Unit := do
+  let _ ← opNewEntity noRun .unsafe_ [0, 1] [] [⟨1, p2⟩]
+
+/-- Step 3: remove a target entity — `cleanupArchetypes` frees its table and moves the child
+    to a (new) table with the zero target. -/
+def removeTarget (p : Ent) : W Unit := opRemoveEntity noRun p
+
+/-- the three steps; after each: the cached lists of both filters and whether they agree with
+    the uncached walk -/
+def script : W (List (List (List Nat)) × List Bool) := do
+  let (p1, p2, id0, id1) ← setup
+  let w ← M.get
+  let t0 := [cachedTables w id0, cachedTables w id1]
+  let r0 := [agree w id0, agree w id1]
+  addChild p2
+  let w ← M.get
+  let t1 := [cachedTables w id0, cachedTables w id1]
+  let r1 := [agree w id0, agree w id1]
+  removeTarget p1
+  let w ← M.get
+  let t2 := [cachedTables w id0, cachedTables w id1]
+  let r2 := [agree w id0, agree w id1]
+  removeTarget p2
+  let w ← M.get
+  let t3 := [cachedTables w id0, cachedTables w id1]
+  let r3 := [agree w id0, agree w id1]
+  pure ([t0, t1, t2, t3], r0 ++ r1 ++ r2 ++ r3)
+
+def result {α : Type} (m : W α) (w : World) : Option α :=
+  match m w with
+  | .ok a _ => some a
+  | .panic _ _ => none
+
+end CacheDemo
 end World
 end Ark
